@@ -445,7 +445,7 @@ def corpus(tier):
 
     n = 2 if tier == "quick" else 3
     progs = [(name, src, meta) for name, src, meta in progen.programs(n, 2)]
-    static = progen.static_seeds() if tier != "quick" else []     # importing them only defines functions
+    static = progen.static_seeds()     # importing them only defines functions
     return progen.seeds() + static + progs
 
 
